@@ -223,6 +223,7 @@ func TestVerifC09Timer(t *testing.T) {
 
 type step struct {
 	Op      string           `json:"op"`
+	W       int              `json:"w"` // the week-end setting after the step
 	Day     int64            `json:"day"`
 	Tod     int64            `json:"tod"`
 	Cur     [2]int64         `json:"cur"`
@@ -331,6 +332,8 @@ func TestVerifC09Rot(t *testing.T) {
 			now = at(st.Day, st.Tod)
 			switch st.Op {
 			case "init", "advance":
+			case "setw":
+				setWeekends(t, []byte(fmt.Sprintf("%d\n", st.W)), false)
 			case "rotate":
 				f.Rotate1()
 				if err := f.Err(); err != nil {
